@@ -37,7 +37,7 @@ const password = "pw-7Kq2mVx9Lr4TzB1nHc"
 func expect(exchange string, etype int, p refkdc.Perturb, addrsRequested bool) string {
 	as := exchange == "as"
 	switch p.Kind {
-	case "nonce", "cname", "cname-extra", "crealm", "other-key", "enc-flip", "enc-trunc", "enc-extend":
+	case "nonce", "cname", "cname-extra", "cname-regroup", "crealm", "other-key", "enc-flip", "enc-trunc", "enc-extend":
 		return "reject"
 	case "sealed-sname", "sealed-srealm":
 		if as {
@@ -121,6 +121,13 @@ func run(tapeJSON json.RawMessage, res *core.Result) {
 	simsync.Passive = true
 	gk.Seed(tp.RunSeed)
 	pol := refkdc.Policy{RequirePreauth: tp.Flow == "preauth", Hints: tp.Hints, CopyAddresses: true, KvnoInReply: tp.RunSeed%2 == 0}
+	user := "alice"
+	if tp.Client == "alice/admin" {
+		user = tp.Client
+	} else if tp.Client != "" {
+		res.Verdict, res.Harness = "invalid", "client"
+		return
+	}
 	sim := refkdc.New("SIM.TEST", tp.RunSeed, pol)
 	other := refkdc.New("OTHER.TEST", tp.RunSeed+1, refkdc.Policy{CopyAddresses: true})
 	refkdc.Link(sim, other)
@@ -129,9 +136,9 @@ func run(tapeJSON json.RawMessage, res *core.Result) {
 	other.AddService("HTTP/far.other.test")
 	sim.Referral["HTTP/far.other.test"] = "OTHER.TEST"
 	if tp.Cred == "keytab" {
-		sim.AddKeyUser("alice", 4)
+		sim.AddKeyUser(user, 4)
 	} else {
-		p := sim.AddPasswordUser("alice", password, tp.Salt, tp.Iter)
+		p := sim.AddPasswordUser(user, password, tp.Salt, tp.Iter)
 		p.Precompute("SIM.TEST", []int{tp.Etype})
 	}
 	net := world.NewNet()
@@ -177,6 +184,7 @@ func run(tapeJSON json.RawMessage, res *core.Result) {
 	gk.Wire(net, other, []string{otherAddr}, pt)
 	lastReply := map[byte][]byte{}
 	errShot, staleShot, truncShot := false, false, false
+	targetSeen := 0
 	net.Mangle = func(proto, addr string, req, reply []byte) []byte {
 		if len(req) == 0 {
 			return reply
@@ -188,9 +196,15 @@ func run(tapeJSON json.RawMessage, res *core.Result) {
 		if !target(req) {
 			return reply
 		}
+		targetSeen++
 		switch tp.Net {
-		case "krberror", "krberror-tcp-after-refuse", "krberror-tcp-after-toobig":
-			if tp.Net != "krberror" && proto != "tcp" {
+		case "krberror", "krberror-second", "krberror-tcp-after-refuse", "krberror-tcp-after-toobig":
+			if tp.Net != "krberror" && tp.Net != "krberror-second" && proto != "tcp" {
+				return reply
+			}
+			if tp.Net == "krberror-second" && targetSeen < 2 {
+				// the first reply of the exchange stays honest (e.g. PREAUTH_REQUIRED); the KDC's error
+				// answers the request the client sends next
 				return reply
 			}
 			if !errShot {
@@ -249,14 +263,14 @@ func run(tapeJSON json.RawMessage, res *core.Result) {
 	var cl *client.Client
 	if tp.Cred == "keytab" {
 		var kt *keytab.Keytab
-		kt, _, err = gk.UserKeytab(sim, "alice")
+		kt, _, err = gk.UserKeytab(sim, user)
 		if err != nil {
 			res.Verdict, res.Harness = "harness-error", "keytab: "+err.Error()
 			return
 		}
-		cl = client.NewWithKeytab("alice", "SIM.TEST", kt, cfg, opts...)
+		cl = client.NewWithKeytab(user, "SIM.TEST", kt, cfg, opts...)
 	} else {
-		cl = client.NewWithPassword("alice", "SIM.TEST", password, cfg, opts...)
+		cl = client.NewWithPassword(user, "SIM.TEST", password, cfg, opts...)
 	}
 	udpFault := map[string]string{"krberror-tcp-after-refuse": "refuse", "krberror-tcp-after-toobig": "toobig"}[tp.Net]
 	if tp.Net == "dup" {
@@ -300,7 +314,11 @@ func run(tapeJSON json.RawMessage, res *core.Result) {
 				return
 			}
 		}
-		simrt.SleepExact(int64(3 * time.Second))
+		pause := 3 * time.Second
+		if tp.PauseMs > 0 {
+			pause = time.Duration(tp.PauseMs) * time.Millisecond
+		}
+		simrt.SleepExact(int64(pause))
 		if udpFault != "" {
 			// the first transport fails (or asks for TCP); the KDC's error then arrives over TCP
 			for _, a := range []string{simAddr, otherAddr} {
